@@ -42,6 +42,8 @@ struct SharedBox<T>(NonNull<T>);
 
 impl<T> Drop for SharedBox<T> {
     fn drop(&mut self) {
+        #[cfg(salsa_rs_salsa_verif)]
+        crate::verif_life::memo_free(self.0.as_ptr() as *const () as usize, 0);
         // SAFETY: Guaranteed by the caller of `DeletedEntries::push`.
         unsafe { drop(Box::from_raw(self.0.as_ptr())) };
     }
